@@ -119,7 +119,11 @@ impl<'a> LspServer<'a> {
                     }
                     self.handle_request(req);
                 }
-                lsp_server::Message::Response(_) => todo!(),
+                lsp_server::Message::Response(response) => {
+                    // This server sends no requests, so there is nothing to match a
+                    // response to; it is not a reason to terminate.
+                    debug!("Ignoring response {:?}", response.id);
+                }
                 lsp_server::Message::Notification(notification) => {
                     self.handle_notification(&notification);
                 }
